@@ -35,10 +35,11 @@ def norm_dump(text: str):
         except (SyntaxError, ValueError, RecursionError, MemoryError):
             return None
     for node in ast.walk(tree):
-        if isinstance(node, (ast.Module, ast.FunctionDef, ast.AsyncFunctionDef, ast.ClassDef)) and node.body:
-            first = node.body[0]
-            if isinstance(first, ast.Expr) and isinstance(first.value, ast.Constant) and isinstance(first.value.value, str):
-                first.value.value = " ".join(first.value.value.split())
+        # a bare string statement is a doc-string to black wherever it stands (its value is discarded at run time)
+        if isinstance(node, ast.Expr) and isinstance(node.value, ast.Constant) and isinstance(node.value.value, str):
+            node.value.value = " ".join(node.value.value.split())
+        if isinstance(node, ast.AnnAssign):
+            node.simple = 1  # `(a): int = 1` -> `a: int = 1`: black drops the redundant parentheses, only this flag differs
     return ast.dump(tree)
 
 
